@@ -206,6 +206,10 @@ def run(chk):
         for cb in range(4):
             cases.append(("dlog %d,%d" % (ca, cb), lambda ca=ca, cb=cb: dlog_case(base, chk, ca, cb)))
     cases += [("u=0", lambda: dlog_case(base, chk, 0, 0, uzero=True)), ("v=0", lambda: dlog_case(base, chk, 0, 0, vzero=True)), ("u=v=0", lambda: dlog_case(base, chk, 0, 0, True, True))]
+    def aliased():
+        from .c11 import k_sqrt_alias
+        k_sqrt_alias(base, chk)
+    cases.append(("aliased receiver", aliased))
     run_kernels(chk, cases + items)
     sq = base.global_val(F + "sqrtM1")
     sv = sum(int(l) << (51 * i) for i, l in enumerate(sq)) % P
@@ -213,6 +217,10 @@ def run(chk):
     chk.fact("(p-1) divisible by 4, (p-5)/8 integral, (p-1)/4 = 1 + 2*(p-5)/8", N % 4 == 0 and (P - 5) % 8 == 0 and N // 4 == 1 + 2 * C, [], "arithmetic")
     from sym import l1 as L1m
     L1m.settle(chk, [o for o in chk.obs if o.name.startswith("SqrtRatio[")], lambda: sqrt_battery(chk.seed), "Element.SqrtRatio")
+    def alias_sqrt_battery():
+        from .c11 import alias_battery
+        return alias_battery(chk.seed)
+    L1m.settle(chk, [o for o in chk.obs if o.name.startswith("Element.SqrtRatio[")], alias_sqrt_battery, "Element.SqrtRatio aliasing")
     chk.samples = [o.j() for o in chk.obs if o.name.startswith("SqrtRatio[")][:6]
 
 
